@@ -1,6 +1,7 @@
 """C17 -- cofactor clearing is multiplication by the RFC h_eff on the whole curve."""
 from math import gcd
 
+import roles
 import exp
 import mathlib as M
 from props import common
@@ -46,9 +47,9 @@ def rules(fx, rep):
                   '[k]P with k == h_eff (%d group operations interpreted)' % I.call_sites,
                   'clear_h multiplies by %#x, RFC 9380 h_eff is %#x' % (k, heff), where)
     # the two chains on their own (roles: generic fns of the module taking (&mut P, &P))
-    for name, expected in (('chain_z', -M.X),):
-        p = 'bls12_381::cofactor::' + name
-        if fx.body(p) is not None:
+    for name, expected in (('abs_x', -M.X),):
+        p = roles.roles(fx).get('chain_abs_x')
+        if p is not None and fx.body(p) is not None:
             rep.fn(p)
             I = exp.Interp(fx, 'add', inline=lambda q_: q_.startswith('bls12_381::cofactor::'))
             try:
